@@ -19,8 +19,10 @@ class Mod:
         with warnings.catch_warnings():
             warnings.simplefilter("ignore")
             self.tree = ast.parse(src, filename=path)
-        from . import pynorm, inventory
-        self.norm_log = pynorm.normalise(self.tree, name, inventory.load()[1])
+        from . import pynorm, inventory, pynames
+        names_log = []
+        pynames.align(self.tree, name, names_log)      # locals written back to the reference spelling (alpha-renaming)
+        self.norm_log = names_log + pynorm.normalise(self.tree, name, inventory.load()[1])
         self.funcs = {}      # qual (without module) -> FunctionDef
         self.classes = {}    # name -> ClassDef
         self.bind = {}       # module-level name -> origin tuple
